@@ -749,3 +749,169 @@ Proof.
       rewrite cskip_field_st by (apply cskip_cenc || assumption || lia). cbn [bind].
       apply (IH Wr Dr f i rest); assumption || lia.
 Qed.
+
+(** * The compact reader never panics, whatever the bytes *)
+Definition np {A} (r : res A) : Prop := match r with Panic _ => False | _ => True end.
+
+Lemma np_bind {A B} (r : res A) (f : A -> res B) : np r -> (forall a, np (f a)) -> np (bind r f).
+Proof. destruct r; cbn; auto. Qed.
+
+Lemma np_read_varint_go b : forall shift acc, np (read_varint_go b shift acc).
+Proof.
+  induction b as [|x r IH]; intros shift acc; cbn [read_varint_go]; [exact I|].
+  destruct (x <? 128); [exact I|apply IH].
+Qed.
+Lemma np_read_n n b : np (read_n n b).
+Proof. unfold read_n. destruct (Nat.leb n (length b)); exact I. Qed.
+
+Lemma np_c_byte st : np (c_byte st).
+Proof. unfold c_byte. destruct (snd st); exact I. Qed.
+Lemma np_c_varint64 st : np (c_varint64 st).
+Proof. unfold c_varint64. apply np_bind; [apply np_read_varint_go|intros [? ?]; exact I]. Qed.
+Lemma np_c_varint32 st : np (c_varint32 st).
+Proof. unfold c_varint32. apply np_bind; [apply np_c_varint64|intros [? ?]; exact I]. Qed.
+Lemma np_c_i32 st : np (c_i32 st).
+Proof. unfold c_i32. apply np_bind; [apply np_c_varint32|intros [? ?]; exact I]. Qed.
+Lemma np_c_i16 st : np (c_i16 st).
+Proof. unfold c_i16. apply np_bind; [apply np_c_i32|intros [? ?]; exact I]. Qed.
+Lemma np_c_i8 st : np (c_i8 st).
+Proof. unfold c_i8. apply np_bind; [apply np_c_byte|intros [? ?]; exact I]. Qed.
+Lemma np_c_i64 st : np (c_i64 st).
+Proof. unfold c_i64. apply np_bind; [apply np_c_varint64|intros [? ?]; exact I]. Qed.
+Lemma np_c_double st : np (c_double st).
+Proof. unfold c_double. apply np_bind; [apply np_read_n|intros [? ?]; exact I]. Qed.
+Lemma np_c_uuid st : np (c_uuid st).
+Proof. unfold c_uuid. apply np_bind; [apply np_read_n|intros [? ?]; exact I]. Qed.
+Lemma np_c_size st : np (c_size st).
+Proof. unfold c_size. apply np_bind; [apply np_c_varint32|intros [n ?]; destruct (n <? 0); exact I]. Qed.
+Lemma np_c_blob st : np (c_blob st).
+Proof.
+  unfold c_blob. apply np_bind; [apply np_c_size|intros [n s]]. cbv zeta.
+  destruct (n <=? zlen (snd s)); exact I.
+Qed.
+Lemma np_c_bool st : np (c_bool st).
+Proof.
+  unfold c_bool. destruct (fst st); [exact I|].
+  apply np_bind; [apply np_c_byte|intros [? ?]; exact I].
+Qed.
+Lemma np_c_list_hdr st : np (c_list_hdr st).
+Proof.
+  unfold c_list_hdr. apply np_bind; [apply np_c_byte|intros [h s1]]. cbv zeta.
+  apply np_bind.
+  - destruct (h / 16 mod 16 =? 15); [apply np_c_varint32|exact I].
+  - intros [size s2]. destruct (size <? 0); [exact I|]. destruct (ttype_of_ctype (h mod 16)); exact I.
+Qed.
+Lemma np_c_map_hdr st : np (c_map_hdr st).
+Proof.
+  unfold c_map_hdr. apply np_bind; [apply np_c_size|intros [size s1]].
+  destruct (size =? 0); [exact I|]. apply np_bind; [apply np_c_byte|intros [? ?]; exact I].
+Qed.
+Lemma np_c_field_hdr last st : np (c_field_hdr last st).
+Proof.
+  unfold c_field_hdr. apply np_bind; [apply np_c_byte|intros [t s1]]. cbv zeta.
+  destruct (t mod 16 =? 0); [exact I|]. apply np_bind.
+  - destruct (t / 16 mod 16 =? 0); [apply np_c_i16|exact I].
+  - intros [id s2]. destruct (ttype_of_ctype (t mod 16)); exact I.
+Qed.
+
+Lemma np_cskip_all fuel :
+  (forall depth wt st, np (cskip fuel depth wt st)) /\
+  (forall depth last st, np (cskip_fields fuel depth last st)) /\
+  (forall depth et n st, np (cskip_seq fuel depth et n st)) /\
+  (forall depth kt vt n st, np (cskip_pairs fuel depth kt vt n st)).
+Proof.
+  induction fuel as [|f [IH1 [IH2 [IH3 IH4]]]].
+  - repeat split; intros; cbn; try exact I.
+    + destruct (n <=? 0); exact I.
+    + destruct (n <=? 0); exact I.
+  - repeat split; intros.
+    + cbn [cskip]. destruct (depth <=? 0); [exact I|].
+      repeat match goal with
+             | |- np (if ?c then _ else _) => destruct c
+             end;
+        try exact I; try apply IH2;
+        try (apply np_bind; [first [apply np_c_bool|apply np_c_i8|apply np_c_i16|apply np_c_i32|apply np_c_i64
+                                    |apply np_c_double|apply np_c_blob|apply np_c_uuid]|intros [? ?]; exact I]).
+      * apply np_bind; [apply np_c_map_hdr|intros [[[kt vt] n] s]; apply IH4].
+      * apply np_bind; [apply np_c_list_hdr|intros [[et n] s]; apply IH3].
+    + cbn [cskip_fields]. apply np_bind; [apply np_c_field_hdr|intros [[wt id] s1]].
+      destruct (wt =? 0); [exact I|]. apply np_bind; [apply IH1|intros s2; apply IH2].
+    + cbn [cskip_seq]. destruct (n <=? 0); [exact I|].
+      apply np_bind; [apply IH1|intros s; apply IH3].
+    + cbn [cskip_pairs]. destruct (n <=? 0); [exact I|].
+      apply np_bind; [apply IH1|intros s1]. apply np_bind; [apply IH1|intros s2; apply IH4].
+Qed.
+
+Lemma np_cdec_int s st : np (cdec_int s st).
+Proof.
+  destruct s; cbn [cdec_int]; try apply np_c_i32.
+  destruct nbytes as [|[|[|[|[|[|[|[|[|?]]]]]]]]]; first [apply np_c_i8|apply np_c_i16|apply np_c_i32|apply np_c_i64].
+Qed.
+
+Lemma np_cdec_all fuel e :
+  (forall t st, np (cdec fuel e t st)) /\
+  (forall et n st, np (cdec_seq fuel e et n st)) /\
+  (forall kt vt n st, np (cdec_pairs fuel e kt vt n st)) /\
+  (forall decls last st, np (cdec_fields fuel e decls last st)).
+Proof.
+  induction fuel as [|f [IH1 [IH2 [IH3 IH4]]]].
+  - repeat split; intros; cbn; try exact I; destruct (n <=? 0); exact I.
+  - repeat split; intros.
+    + cbn [cdec]. destruct (shape_of e t); try exact I;
+        try (apply np_bind; [first [apply np_c_bool|apply np_cdec_int|apply np_c_i32|apply np_c_double|apply np_c_blob]
+                            |intros [? ?]; exact I]).
+      * apply np_bind; [apply np_c_list_hdr|intros [h s1]]. apply np_bind; [apply IH2|intros [? ?]; exact I].
+      * apply np_bind; [apply np_c_list_hdr|intros [h s1]]. apply np_bind; [apply IH2|intros [? ?]; exact I].
+      * apply np_bind; [apply np_c_map_hdr|intros [h s1]]. apply np_bind; [apply IH3|intros [? ?]; exact I].
+      * apply np_bind; [apply IH4|intros [? ?]; exact I].
+    + cbn [cdec_seq]. destruct (n <=? 0); [exact I|].
+      apply np_bind; [apply IH1|intros [x s1]]. apply np_bind; [apply IH2|intros [? ?]; exact I].
+    + cbn [cdec_pairs]. destruct (n <=? 0); [exact I|].
+      apply np_bind; [apply IH1|intros [k s1]]. apply np_bind; [apply IH1|intros [x s2]].
+      apply np_bind; [apply IH3|intros [? ?]; exact I].
+    + cbn [cdec_fields]. apply np_bind; [apply np_c_field_hdr|intros [[wt id] s1]].
+      destruct (wt =? 0); [exact I|]. destruct (ftyp_of decls id).
+      * apply np_bind; [apply IH1|intros [x s2]]. apply np_bind; [apply IH4|intros [? ?]; exact I].
+      * apply np_bind; [apply (proj1 (np_cskip_all f))|intros s2; apply IH4].
+Qed.
+
+Theorem compact_reader_never_panics fuel e t st : np (cdec fuel e t st).
+Proof. apply (proj1 (np_cdec_all fuel e)). Qed.
+
+(** ... nor does the generated Read that drives it *)
+Lemma np_from_wire e : forall w t, np (from_wire e t w).
+Proof.
+  induction w using val_ind'; intro t; try exact I.
+  - rewrite from_wire_list_eq. apply np_bind; [|intros; exact I].
+    generalize (elem_ty (shape_of e t)) as et. intro et.
+    induction H as [|x r Hx _ IH]; cbn [fw_seq]; [exact I|].
+    apply np_bind; [apply Hx|intros a]. apply np_bind; [apply IH|intros; exact I].
+  - rewrite from_wire_set_eq. apply np_bind; [|intros; exact I].
+    generalize (elem_ty (shape_of e t)) as et. intro et.
+    induction H as [|x r Hx _ IH]; cbn [fw_seq]; [exact I|].
+    apply np_bind; [apply Hx|intros a]. apply np_bind; [apply IH|intros; exact I].
+  - rewrite from_wire_map_eq. apply np_bind; [|intros; exact I].
+    generalize (key_ty (shape_of e t)) as kt. generalize (mval_ty (shape_of e t)) as vt. intros vt kt.
+    induction H as [|[k x] r [Hk Hx] _ IH]; cbn [fw_pairs]; [exact I|]. cbn [fst snd] in *.
+    apply np_bind; [apply Hk|intros a]. apply np_bind; [apply Hx|intros b].
+    apply np_bind; [apply IH|intros; exact I].
+  - rewrite from_wire_rec_eq. destruct (shape_of e t); try exact I.
+    apply np_bind.
+    + generalize (new_struct e fs) as st.
+      induction H as [|[i x] r Hx _ IH]; intro st; cbn [fw_fields]; [exact I|]. cbn [snd] in Hx.
+      destruct (find_field fs i); [|apply IH].
+      apply np_bind; [apply Hx|intros g; apply IH].
+    + intros st. destruct (negb (required_seen fs (map fst l))); [exact I|].
+      destruct (is_union k && negb (count_set e fs st =? 1)); exact I.
+Qed.
+
+Theorem compact_read_never_panics fuel e t b : np (gcread fuel e t b).
+Proof.
+  unfold gcread. apply np_bind; [apply compact_reader_never_panics|intros [w s]].
+  apply np_bind; [apply np_from_wire|intros; exact I].
+Qed.
+
+Theorem compact_read_no_panic fuel e t b p : gcread fuel e t b <> Panic p.
+Proof. intros H. pose proof (compact_read_never_panics fuel e t b) as Hn. rewrite H in Hn. exact Hn. Qed.
+Theorem compact_reader_no_panic fuel e t st p : cdec fuel e t st <> Panic p.
+Proof. intros H. pose proof (compact_reader_never_panics fuel e t st) as Hn. rewrite H in Hn. exact Hn. Qed.
